@@ -1,7 +1,7 @@
 #!/bin/bash
 # usage: tools/seed_eval.sh <PROP> <k> "<test files>"   -- validates seeded change k of /tmp/seed/<PROP>.out and runs the check on it
 PROP="$1"; K="$2"; TESTS="$3"
-OUT=/tmp/seed/$PROP.out
+OUT=${SEEDDIR:-/tmp/seed}/$PROP.out
 WT=/tmp/scratch/se_${PROP}_$K
 mkdir -p /tmp/scratch
 git -C /repo worktree add -q --detach "$WT" HEAD || exit 3
